@@ -11,6 +11,12 @@ package mm
 // touches nothing else.
 //@ ghost allocState uintptr
 
+// memError labels the errors that come out of the memory-management layers (frame allocators,
+// vmm); it is uninterpreted: packages above only assume that their own private errors do not
+// carry the label
+//@ ufun memError(e *kernel.Error) bool
+
 //@ func AllocFrame() (f Frame, err *kernel.Error)
 //@   trusted
 //@   modifies allocState
+//@   ensures err != nil ==> memError(err)
